@@ -66,6 +66,12 @@ static double lambda_min(const Prob &p) { // cyclic Jacobi
 
 static Prob gen(Rng &r, bool small) {
 	Prob p; int kind = (int)r.below(5);
+	if (!small && r.coin(0.12)) { // a chain: tridiagonal, well conditioned, and a right-hand side whose optimum has a support of hundreds of coefficients that an active-set
+		// method can only reach one neighbour at a time
+		int n = r.range(250, 500); p.n = n; p.A.assign((size_t)n * n, 0); p.b.assign(n, 0); double dg = 2.0 + std::pow(10.0, -(double)r.range(2, 4));
+		for (int i = 0; i < n; i++) { p.A[i + (size_t)n * i] = dg; if (i + 1 < n) { p.A[i + (size_t)n * (i + 1)] = -1; p.A[i + 1 + (size_t)n * i] = -1; } p.b[i] = -1e-4 * (0.5 + r.U()); }
+		p.b[r.coin(0.5) ? 0 : n / 2] = 10 + 20 * r.U(); p.lmin_lb = dg - 2; p.kind = "chain(tridiagonal)/long-support"; p.m = 0; return p;
+	}
 	int n = small ? r.range(2, 12) : r.range(20, 300);
 	p.n = n; p.A.assign((size_t)n * n, 0); p.b.assign(n, 0);
 	double eps = std::pow(10.0, -(double)r.range(1, 4));
@@ -126,6 +132,15 @@ static void run_C11(const Args &a, long cs) {
 	Rng r(a.seed, "C11", cs);
 	bool small = cs % 4 != 3;
 	Prob p = gen(r, small);
+	if (cs % 100 == 98) { // two fixed 4x4 systems (A = M'M + I/2) on which the principal-pivoting solvers need 13 single pivots - more than a budget of 3n allows
+		static const double Ms[2][16] = {{-1.3288315093861109, 1.3847923793316785, -0.35612059410015168, -0.29090872530634931, -0.4015706419765811, 1.5116345363560295, 0.51452891607979734, -1.1780462862984491, 0.69830984607725854, 0.76970848869053088, 1.2836032292566275, -0.54893833058138275, 0.29332391634039739, 0.40704294877687608, 1.5476133410388666, 0.16953176582210308},
+			{-1.0621670995057408, 1.6483722324941179, -0.35237986416433953, -0.29175697708817067, -0.16244847761581102, 1.0697490903966826, 0.45908672141101525, -1.2621103072991178, 0.69274428073910255, 0.66795576741125229, 0.97268661532210465, -0.94623115128429158, -0.031769614017927113, 0.49295305009603169, 1.5124623764946414, 0.27668767413668688}};
+		static const double bs[2][4] = {{2.0193462246257563, 0.88952322612727219, 0.12059347410015461, 0.0087998704769647884}, {2.0980840068511126, 0.68184942124031933, 0.073604955476990461, 0.033942392738043503}};
+		int w = (int)((cs / 100) % 2); p = Prob(); p.n = 4; p.A.assign(16, 0); p.b.assign(bs[w], bs[w] + 4); small = true;
+		for (int i = 0; i < 4; i++) for (int j = 0; j < 4; j++) { double sv = 0; for (int k = 0; k < 4; k++) sv += Ms[w][k + i * 4] * Ms[w][k + j * 4]; p.A[i + 4 * j] = sv + (i == j ? 0.5 : 0.0); }
+		for (int i = 0; i < 4; i++) for (int j = 0; j < i; j++) p.A[i + 4 * j] = p.A[j + 4 * i];
+		p.kind = "many-pivots-4x4"; p.lmin_lb = 0.5; p.m = 0;
+	}
 	int n = p.n;
 	if (a.verbose) fprintf(stderr, "case %ld: n=%d kind=%s\n", cs, n, p.kind.c_str());
 	count("problems"); count(small ? "problems-enumerated(n<=12)" : "problems-large(KKT-only)"); count("kind:" + p.kind.substr(0, p.kind.find('/')));
